@@ -666,6 +666,28 @@ func checkC04(c *core.Ctx) {
 		c.Nontrivial(fmt.Sprintf("huge%d", i))
 		c.Extra("huge_input_cpu_ms", res.CPUms)
 	})
+	// millions of comment lines in a row (thorough tier only: a minute of CPU each): still a sentence
+	if !c.Quick() {
+		c.StreamSeq("deepcomments", 2, func(i int, _ *rand.Rand) {
+			n := []int{12000000, 16000000}[i]
+			in := append(bytes.Repeat([]byte(";\n"), n), []byte([]string{"C[1]", "C[1] D["}[i])...)
+			res := runCPU(c, 900, nil, "text", "parse", c.Scratch.File("deep.txt", in))
+			c.Eval(1)
+			if res.WallKill || res.StartErr != nil {
+				c.Inconclusive("watchdog on the deep comment input")
+				return
+			}
+			if a := abnormal(res); a != "" {
+				c.Violate("deepcomments", i, "deepcomments:abnormal", fmt.Sprintf("crd text parse on %d comment lines followed by a chord %s", n, a), map[string]any{"stderr": short(string(res.Stderr), 400), "exit": res.Exit})
+				return
+			}
+			if res.OK() != (i == 0) {
+				c.Violate("deepcomments", i, "deepcomments:accept", fmt.Sprintf("%d comment lines followed by %q: accepted=%v", n, []string{"C[1]", "C[1] D["}[i], res.OK()), nil)
+				return
+			}
+			c.Nontrivial(fmt.Sprintf("deep%d", i))
+		})
+	}
 	// invalid UTF-8 and odd runes: accept/reject only
 	c.Stream("bytes", c.N(8, 64), func(i int, r *rand.Rand) {
 		var mine [][]byte
